@@ -11,7 +11,9 @@ WORLDS = {
     "W2":  dict(keys="W2Keys", files="W2Files", scripts="W2Scripts", srcs="W2Srcs", ops="W2Ops", hasr=False),
     "W2b": dict(keys="W2bKeys", files="W2bFiles", scripts="W2bScripts", srcs="W2bSrcs", ops="W2bOps", hasr=False),
     "W3":  dict(keys="W3Keys", files="W3Files", scripts="W3Scripts", srcs="W3Srcs", ops="W3Ops", hasr=True),
+    "W3f": dict(keys="W3fKeys", files="W3Files", scripts="W3Scripts", srcs="W3Srcs", ops="W3fOps", hasr=True),
     "W4":  dict(keys="W4Keys", files="W4Files", scripts="W4Scripts", srcs="W4Srcs", ops="W4Ops", hasr=True),
+    "W4r": dict(keys="W4Keys", files="W4Files", scripts="W4Scripts", srcs="W4Srcs", ops="W4rOps", hasr=True),
     "W4d": dict(keys="W4Keys", files="W4Files", scripts="W4Scripts", srcs="W4Srcs", ops="W4dOps", hasr=True),
     "W5":  dict(keys="W5Keys", files="W5Files", scripts="W5Scripts", srcs="W5Srcs", ops="W5Ops", hasr=True, dirsu='{"d.e"}'),
     "W6":  dict(keys="W6Keys", files="W6Files", scripts="W6Scripts", srcs="W6Srcs", ops="W6Ops", hasr=True),
@@ -30,13 +32,13 @@ ORDER_FIRST = "TRUE"
 FIX_GOI = "TRUE"    # get_or_insert entries are static (D7 repaired in /repo); "FALSE" is the as-built negative control
 
 
-def cfg_text(w, n, spec="GSpec", invariants=("Emit",), properties=(), extra=""):
+def cfg_text(w, n, spec="GSpec", invariants=("Emit",), properties=(), extra="", keep="KeepAll"):
     d = WORLDS[w]
     lines = [f"SPECIFICATION {spec}", "CONSTANTS",
              f"  Keys <- {d['keys']}", f"  Files <- {d['files']}", f"  DirsU = {d.get('dirsu', '{}')}",
              f"  Scripts <- {d['scripts']}", f"  InitSrcs <- {d['srcs']}", "  InitDirs = {}",
              f"  HasReloader = {'TRUE' if d['hasr'] else 'FALSE'}", f"  FixGoi = {FIX_GOI}", f"  OrderFirst = {ORDER_FIRST}",
-             f"  Ops <- {d['ops']}", f"  N = {n}"]
+             f"  Ops <- {d['ops']}", f"  N = {n}", f"  Keep <- {keep}"]
     for i in invariants:
         lines.append(f"INVARIANT {i}")
     for p in properties:
@@ -47,12 +49,12 @@ def cfg_text(w, n, spec="GSpec", invariants=("Emit",), properties=(), extra=""):
     return "\n".join(lines) + "\n"
 
 
-def generate(w, n, *, simulate=None, seed=None, timeout=900, limit=None):
+def generate(w, n, *, simulate=None, seed=None, timeout=900, limit=None, keep="KeepAll"):
     """Behaviours of world w: exhaustive up to length n, or `simulate` random ones of length n."""
     cfg = f"Gen_{w}_{n}_{os.getpid()}.cfg"
     path = os.path.join(vlib.SPEC, cfg)
     with open(path, "w") as f:
-        f.write(cfg_text(w, n))
+        f.write(cfg_text(w, n, keep=keep))
     try:
         r = vlib.tlc_expect_ok("MC_World", cfg, workers=1, simulate=simulate, depth=(n + 1 if simulate else None),
                                seed=seed, timeout=timeout, name=f"gen-{w}-n{n}", xmx="6g")
@@ -128,8 +130,10 @@ def run_suite(ctx, suite, *, classify=None, nontrivial=None, variants=None, feat
     """suite: list of (world, n, simulate|None, limit|None).  Generates with TLC, replays on the real
     crate, records coverage, reports mismatches (through `classify(m)` -> finding key)."""
     total = 0
-    for (w, n, sim, limit) in suite:
-        r, behs = generate(w, n, simulate=sim, seed=(ctx.seed if sim else None), limit=limit)
+    for item in suite:
+        (w, n, sim, limit) = item[:4]
+        keep = item[4] if len(item) > 4 else "KeepAll"
+        r, behs = generate(w, n, simulate=sim, seed=(ctx.seed if sim else None), limit=limit, keep=keep)
         ctx.add_tlc(f"Gen {w}: behaviours of length {n}" + (f" (simulate num={sim}, seed {ctx.seed})" if sim else " (exhaustive)"), r)
         if not behs:
             raise vlib.ToolError(f"generator {w} produced no behaviour")
